@@ -209,6 +209,7 @@ func checkC13(c *Ctx) {
 	c13Inject(c, reach)
 	c13CtxFuncApplied(c, reach)
 	c15SessionInContext(c) // the request's own session is what middlewares, filters and handlers find in the context
+	poolAliasRule(c, "R-answer-owned") // an answer framed in a recycled buffer that is put back before it is written is overwritten by another session's
 	dispatchOwnContext(c, "R-own-session")
 }
 
